@@ -645,7 +645,7 @@ def run(chk):
                 seen.update(new)
         grid = chosen
     else:
-        grid = grid[:3000]
+        grid = grid[:6000]
     cases = []
     for i, g in enumerate(grid):
         c = dict(g)
